@@ -129,3 +129,467 @@ Section Words.
     rewrite E1, E2. lia.
   Qed.
 End Words.
+
+(* ---------- small facts ---------- *)
+Lemma last_cleared_nonempty : forall fbs p, fbs <> [] -> last_cleared p fbs = mask3 (last fbs 0).
+Proof.
+  unfold last_cleared. induction fbs as [|f fr IH]; intros p Hne; [contradiction|].
+  cbn [fold_left]. destruct fr as [|f2 fr']; [reflexivity|].
+  rewrite IH by discriminate. reflexivity.
+Qed.
+
+Lemma fold_right_checks {A} (ok : Z -> bool) (v : Z -> A) (l : list Z) :
+  (forall w, In w l -> ok w = true) ->
+  fold_right (fun w acc => (ok w && fst acc, v w :: snd acc)) (true, []) l = (true, map v l).
+Proof.
+  induction l as [|w l IH]; intros H; [reflexivity|].
+  cbn [fold_right map]. rewrite IH by (intros; apply H; now right). cbn [fst snd].
+  rewrite (H w) by now left. reflexivity.
+Qed.
+
+Lemma mix_valid_same g chans : mix_valid (nchan g) chans = mix_chans_valid g chans.
+Proof.
+  unfold mix_valid, mix_chans_valid. induction chans as [|c r IH]; [reflexivity|].
+  cbn [forallb]. rewrite IH. f_equal. f_equal.
+  pose proof (Z.mod_pos_bound c 2 ltac:(lia)). lia.
+Qed.
+
+Lemma zlen_upd_nth {A} (l : list A) n v : zlen (upd_nth l n v) = zlen l.
+Proof. unfold zlen. now rewrite upd_nth_length. Qed.
+
+Lemma znth_upd_nth_same {A} (d : A) l i v : 0 <= i < zlen l -> znth d (upd_nth l (Z.to_nat i) v) i = v.
+Proof.
+  intros Hi. unfold znth. destruct (i <? 0) eqn:E; [lia|]. apply nth_upd_nth_same. unfold zlen in Hi. lia.
+Qed.
+
+Lemma znth_upd_nth_other {A} (d : A) l i j v : 0 <= i -> 0 <= j -> i <> j ->
+  znth d (upd_nth l (Z.to_nat i) v) j = znth d l j.
+Proof.
+  intros Hi Hj Hne. unfold znth. destruct (j <? 0) eqn:E; [lia|]. apply nth_upd_nth_other. lia.
+Qed.
+
+Section Glue.
+  Variable est : Z -> Z -> Z.
+  Variable g : geom.
+  Variable nsamp : Z.
+  Hypothesis Hc : 1 <= ncols g.
+  Hypothesis Hr : 2 <= nrows g.
+  Let W := nwords g.
+  Let fs := fsize g.
+  Variable S : list Z.
+  Hypothesis Hwf : frame_bits_wf g S.
+  Let c : cfg := {| c_g := g; c_nsamp := nsamp; c_gap := None |}.
+
+  Lemma Wpos : 2 <= W /\ fs = 4 * W /\ nchan g = 2 * W.
+  Proof. unfold W, fs, fsize, nchan, nwords. nia. Qed.
+
+  Definition errs_of (R m w : Z) : list Z := map (fun j => err_at S (R + j * fs) w) (zrange 0 m).
+  Definition fbs_of (R m w : Z) : list Z := map (fun j => fb_at S (R + j * fs) w) (zrange 0 m).
+
+  Lemma exact_row_err R m w : 0 <= w < W -> 0 <= m -> znth [] (exact_data g S R m) (2 * w) = errs_of R m w.
+  Proof.
+    intros Hw Hm. destruct Wpos as (HW & Hfs & Hn).
+    rewrite znth_exact_data_row by lia. unfold errs_of, err_at. apply map_ext. intros j. f_equal. fold fs. lia.
+  Qed.
+  Lemma exact_row_fb R m w : 0 <= w < W -> 0 <= m -> znth [] (exact_data g S R m) (2 * w + 1) = fbs_of R m w.
+  Proof.
+    intros Hw Hm. destruct Wpos as (HW & Hfs & Hn).
+    rewrite znth_exact_data_row by lia. unfold fbs_of, fb_at. apply map_ext. intros j. f_equal. fold fs. lia.
+  Qed.
+  Lemma zlen_errs_of R m w : 0 <= m -> zlen (errs_of R m w) = m.
+  Proof. intros. unfold errs_of. rewrite zlen_map, zlen_zrange; lia. Qed.
+  Lemma zlen_fbs_of R m w : 0 <= m -> zlen (fbs_of R m w) = m.
+  Proof. intros. unfold fbs_of. rewrite zlen_map, zlen_zrange; lia. Qed.
+
+  (* distributeData on exactly demultiplexed frames *)
+  Lemma distribute_exact dst R m stamp :
+    zlen (d_mix dst) = nchan g -> 1 <= m ->
+    let segs := snd (dist_chans (exact_data g S R m) (chan2readout g) 0 (d_mix dst)) in
+    let mix' := fst (dist_chans (exact_data g S R m) (chan2readout g) 0 (d_mix dst)) in
+    let flags := row_flags g S R m (d_next dst + 0) in
+    distribute_gen est true g dst {| bm_data := exact_data g S R m; bm_stamp := stamp; bm_drop := false |} =
+      Ok ({| d_next := d_next dst + m + 0; d_ext := last_flag (d_ext dst) flags; d_prev := stamp; d_mix := mix' |},
+          {| b_first := d_next dst + 0; b_dropped := 0; b_data := segs; b_ext := edges (d_ext dst) flags |}) /\
+    zlen mix' = nchan g /\ zlen segs = nchan g /\ (forall d, In d segs -> zlen d = m) /\
+    forall w, 0 <= w < W ->
+      let mx := znth dmix (d_mix dst) (chan_of_word g w 1) in
+      znth [] segs (chan_of_word g w 0) = errs_of R m w /\
+      znth [] segs (chan_of_word g w 1) = exp_fb (m_scale mx) (m_last mx) (fbs_of R m w) (errs_of R m w) /\
+      znth dmix mix' (chan_of_word g w 1) =
+        {| m_scale := m_scale mx; m_last := last_cleared (m_last mx) (fbs_of R m w) |}.
+  Proof.
+    intros Hml Hm segs mix' flags. destruct Wpos as (HW & Hfs & Hn).
+    destruct (dist_chans_spec (exact_data g S R m) (chan2readout g) (d_mix dst) 0) as (Hl1 & Hl2 & Hpt).
+    fold segs in Hl2, Hpt. fold mix' in Hl1, Hpt.
+    assert (Hc1 : 1 <= nrows g) by lia.
+    (* the per-word facts *)
+    assert (Hwords : forall w, 0 <= w < W ->
+      let mx := znth dmix (d_mix dst) (chan_of_word g w 1) in
+      znth [] segs (chan_of_word g w 0) = errs_of R m w /\
+      znth [] segs (chan_of_word g w 1) = exp_fb (m_scale mx) (m_last mx) (fbs_of R m w) (errs_of R m w) /\
+      znth dmix mix' (chan_of_word g w 1) =
+        {| m_scale := m_scale mx; m_last := last_cleared (m_last mx) (fbs_of R m w) |}).
+    { intros w Hw mx.
+      pose proof (chan_of_word_range g Hc Hc1 w 0 Hw ltac:(lia)) as R0.
+      pose proof (chan_of_word_range g Hc Hc1 w 1 Hw ltac:(lia)) as R1.
+      pose proof (Hpt (chan_of_word g w 0) ltac:(lia)) as P0. cbv zeta in P0.
+      pose proof (Hpt (chan_of_word g w 1) ltac:(lia)) as P1. cbv zeta in P1.
+      replace (0 + chan_of_word g w 0) with (chan_of_word g w 0) in P0 by lia.
+      replace (0 + chan_of_word g w 1) with (chan_of_word g w 1) in P1 by lia.
+      rewrite (chan_of_word_parity g w 0 ltac:(lia)) in P0. rewrite (chan_of_word_parity g w 1 ltac:(lia)) in P1.
+      cbn [Z.eqb] in P0, P1.
+      replace (chan_of_word g w 1 - 1) with (chan_of_word g w 0) in P1 by (unfold chan_of_word; lia).
+      rewrite (tbl_chan_of_word g Hc Hc1 w 0 Hw ltac:(lia)) in P0, P1.
+      rewrite (tbl_chan_of_word g Hc Hc1 w 1 Hw ltac:(lia)) in P1.
+      replace (2 * w + 0) with (2 * w) in P0, P1 by lia.
+      rewrite exact_row_err in P0, P1 by lia. rewrite exact_row_fb in P1 by lia.
+      fold mx in P1. rewrite mix_retard_exp in P1 by (rewrite zlen_fbs_of, zlen_errs_of; lia).
+      cbn [fst snd] in P1. destruct P0 as [P0 _]. destruct P1 as [P1a P1b]. repeat split; assumption. }
+    assert (Hrows : forall d, In d segs -> zlen d = m).
+    { intros d Hd. apply (In_nth _ _ []) in Hd as (n & Hn' & <-).
+      assert (Hi : 0 <= Z.of_nat n < zlen (d_mix dst)) by (unfold zlen in *; lia).
+      pose proof (Hpt (Z.of_nat n) Hi) as P. cbv zeta in P.
+      assert (Ez : nth n segs [] = znth [] segs (Z.of_nat n)).
+      { unfold znth. destruct (Z.of_nat n <? 0) eqn:E; [lia|]. now rewrite Nat2Z.id. }
+      rewrite Ez.
+      assert (Htbl : forall ch, 0 <= ch < nchan g -> 0 <= znth 0 (chan2readout g) ch < nchan g).
+      { intros ch Hch. destruct (chan_order_bijection_proof g Hc Hc1) as (_ & _ & H3 & _). now apply H3. }
+      destruct ((0 + Z.of_nat n) mod 2 =? 1) eqn:Eodd.
+      - destruct P as [P _]. rewrite P. rewrite mix_retard_exp.
+        + cbn [snd]. rewrite zlen_exp_fb.
+          * rewrite znth_exact_data_row by (try apply Htbl; lia). rewrite zlen_map, zlen_zrange; lia.
+          * assert (0 + Z.of_nat n <> 0) by (intros E0; rewrite E0 in Eodd; cbn in Eodd; discriminate).
+            rewrite !znth_exact_data_row by (try apply Htbl; lia). rewrite !zlen_map, !zlen_zrange; lia.
+        + assert (0 + Z.of_nat n <> 0) by (intros E0; rewrite E0 in Eodd; cbn in Eodd; discriminate).
+          rewrite !znth_exact_data_row by (try apply Htbl; lia). rewrite !zlen_map, !zlen_zrange; lia.
+      - destruct P as [P _]. rewrite P. rewrite znth_exact_data_row by (try apply Htbl; lia).
+        rewrite zlen_map, zlen_zrange; lia. }
+    split; [|split; [lia|split; [lia|split; [exact Hrows|exact Hwords]]]].
+    unfold distribute_gen. cbn [bm_data bm_stamp bm_drop].
+    rewrite shape_ok_exact by lia. cbn [negb].
+    assert (Efu : zlen (znth [] (exact_data g S R m) 0) = m).
+    { rewrite znth_exact_data_row by lia. rewrite zlen_map, zlen_zrange; lia. }
+    rewrite Efu. rewrite ext_scan_exact by lia.
+    destruct (dist_chans (exact_data g S R m) (chan2readout g) 0 (d_mix dst)) as [mx sg] eqn:Ed.
+    subst segs mix'. cbn [fst snd]. reflexivity.
+  Qed.
+End Glue.
+
+Section GlueRun.
+  Variable est : Z -> Z -> Z.
+  Variable g : geom.
+  Variable nsamp : Z.
+  Hypothesis Hc : 1 <= ncols g.
+  Hypothesis Hr : 2 <= nrows g.
+  Let W := nwords g.
+  Let fs := fsize g.
+  Variable S : list Z.
+  Hypothesis Hwf : frame_bits_wf g S.
+  Let c : cfg := {| c_g := g; c_nsamp := nsamp; c_gap := None |}.
+
+  (* model state and checker state describe the same situation; D bytes delivered *)
+  Record Inv (D : Z) (st : state) (k : cst) : Prop := {
+    i_D : k_D k = D;
+    i_fpos : k_fpos k = k_R k;
+    i_Rb : 0 <= k_R k <= D;
+    i_mod : k_R k mod fs = 0;
+    i_pend : s_pend st = zslice S (k_R k) (D - k_R k);
+    i_next : d_next (s_d st) = k_next k;
+    i_ext : d_ext (s_d st) = k_ext k;
+    i_mixlen : zlen (d_mix (s_d st)) = nchan g;
+    i_klast : zlen (k_last k) = W;
+    i_kscale : zlen (k_scale k) = W;
+    i_corr : forall w, 0 <= w < W ->
+               m_last (znth dmix (d_mix (s_d st)) (chan_of_word g w 1)) = znth 0 (k_last k) w /\
+               m_scale (znth dmix (d_mix (s_d st)) (chan_of_word g w 1)) = znth 0%float (k_scale k) w;
+    i_real : k_realigned k = false
+  }.
+
+  Lemma frame_bits_from0 : frame_bits_wf_from g S 0.
+  Proof. intros k Hk Hl. replace (0 + 4 * k + 2) with (4 * k + 2) in * by lia. now apply Hwf. Qed.
+
+  (* ---------- a chunk ---------- *)
+  Lemma chunk_step S1 st k bytes stamp S2 :
+    let D := zlen S1 in
+    Inv D st k -> S = S1 ++ bytes ++ S2 ->
+    exists st' r k',
+      step est true g nsamp st (OChunk bytes stamp) = (st', r) /\
+      (forall kd, r <> RPanic kd) /\
+      check_step c S k (OChunk bytes stamp) r = Some k' /\
+      Inv (D + zlen bytes) st' k'.
+  Proof.
+    intros D I HS. destruct (Wpos est g Hc Hr) as (HW & Hfs & Hn). fold W in HW, Hfs, Hn. fold fs in Hfs.
+    pose proof (zlen_nonneg bytes) as Hb0. pose proof (zlen_nonneg S2) as Hs0.
+    destruct I as [iD ifp iRb imod ipend inext iext iml ikl iks icorr ireal].
+    set (R := k_R k) in *.
+    assert (HD0 : 0 <= D) by (unfold D; apply zlen_nonneg).
+    assert (HlenS : zlen S = D + zlen bytes + zlen S2).
+    { rewrite HS. rewrite !zlen_app. unfold D. lia. }
+    set (L := D + zlen bytes - R).
+    assert (Hb : s_pend st ++ bytes = zslice S R L).
+    { unfold L. replace (D + zlen bytes - R) with ((D - R) + zlen bytes) by lia.
+      rewrite zslice_app_split by lia. rewrite <- ipend. f_equal.
+      replace (R + (D - R)) with D by lia. rewrite HS. unfold D. now rewrite zslice_mid. }
+    pose proof (reader_tick_aligned g Hc Hr S 0 ltac:(lia) frame_bits_from0 (s_pend st) bytes stamp R L
+                  ltac:(lia) ltac:(now rewrite Z.sub_0_r) ltac:(unfold L; lia) ltac:(unfold L; lia) Hb) as Htick.
+    fold fs in Htick.
+    unfold step. rewrite Htick.
+    destruct (L <? 3 * fs) eqn:E3.
+    - (* read too small *)
+      cbn [t_out t_pend t_rels].
+      eexists _, _, _. split; [reflexivity|]. split; [discriminate|].
+      unfold check_step. subst c. cbn [c_g c_gap c_nsamp]. replace (zlen [] =? 0) with true by reflexivity.
+      cbn [k_D k_R]. rewrite iD. fold R. fold fs.
+      destruct (D + zlen bytes - R <? 3 * fs) eqn:E3'; [|unfold L in E3; lia].
+      split; [reflexivity|].
+      constructor; cbn [k_D k_R k_fpos k_next k_ext k_last k_scale k_realigned s_pend s_d]; auto; try lia.
+    - (* whole frames *)
+      set (m := L / fs).
+      assert (Hm3 : 3 <= m) by (unfold m; apply Z.div_le_lower_bound; lia).
+      assert (Hmfs : m * fs <= L) by (unfold m; rewrite Z.mul_comm; apply Z.mul_div_le; lia).
+      assert (Hmfs2 : L < m * fs + fs).
+      { unfold m. pose proof (Z.mod_pos_bound L fs ltac:(lia)). pose proof (Z.div_mod L fs ltac:(lia)). lia. }
+      cbn [t_out t_pend t_rels].
+      destruct (distribute_exact est g Hc Hr S (s_d st) R m stamp iml ltac:(lia))
+        as (Hdist & Hlm & Hls & Hrows & Hwords).
+      rewrite Hdist.
+      set (segs := snd (dist_chans (exact_data g S R m) (chan2readout g) 0 (d_mix (s_d st)))) in *.
+      set (mix' := fst (dist_chans (exact_data g S R m) (chan2readout g) 0 (d_mix (s_d st)))) in *.
+      set (flags := row_flags g S R m (d_next (s_d st) + 0)) in *.
+      eexists _, _, _. split; [reflexivity|]. split; [discriminate|].
+      (* the checker *)
+      unfold check_step, check_block, check_words. subst c.
+      cbn [c_g c_gap c_nsamp b_data b_dropped b_first b_ext k_D k_R k_fpos k_next k_ext k_last k_scale k_realigned].
+      fold fs. fold W.
+      assert (Eseg0 : zlen (znth [] segs 0) = m).
+      { apply Hrows. unfold znth. cbn. apply nth_In. unfold zlen in Hls. lia. }
+      rewrite Eseg0. rewrite Hls, Z.eqb_refl.
+      replace (1 <=? m) with true by lia.
+      replace (forallb (fun d => zlen d =? m) segs) with true
+        by (symmetry; apply forallb_forall; intros d Hd; rewrite (Hrows d Hd); lia).
+      cbn [andb Z.eqb]. rewrite ifp. fold R. rewrite iD.
+      replace (R + m * fs <=? D + zlen bytes) with true by (unfold L in *; lia).
+      rewrite inext. replace (k_next k + 0 =? k_next k) with true by lia.
+      (* words *)
+      rewrite (fold_right_checks
+                 (fun w => zlist_eqb (znth [] segs (chan_of_word g w 0))
+                                     (map (fun j => err_at S (R + j * fs) w) (zrange 0 m)) &&
+                           zlist_eqb (znth [] segs (chan_of_word g w 1))
+                                     (exp_fb (znth 0%float (k_scale k) w) (znth 0 (k_last k) w)
+                                             (map (fun j => fb_at S (R + j * fs) w) (zrange 0 m))
+                                             (map (fun j => err_at S (R + j * fs) w) (zrange 0 m))))
+                 (fun w => mask3 (last (map (fun j => fb_at S (R + j * fs) w) (zrange 0 m)) 0))).
+      2:{ intros w Hw. apply in_zrange in Hw. destruct (Hwords w ltac:(fold W; lia)) as (He & Hf & _).
+          destruct (icorr w ltac:(lia)) as (Hl & Hsc).
+          apply andb_true_iff. split; apply zlist_eqb_eq.
+          - rewrite He. reflexivity.
+          - rewrite Hf, Hl, Hsc. reflexivity. }
+      cbn [fst snd].
+      replace (row_flags g S R m (k_next k + 0)) with flags by (unfold flags; now rewrite inext).
+      rewrite iext.
+      replace (zlist_eqb (edges (k_ext k) flags) (edges (k_ext k) flags)) with true
+        by (symmetry; now apply zlist_eqb_eq).
+      unfold zsum. cbn [fold_right].
+      replace (R + (m * fs + 0) =? R + m * fs) with true by lia.
+      rewrite ?Z.eqb_refl. cbn [andb].
+      cbn [k_D k_R]. replace (D + zlen bytes - (R + (m * fs + 0)) <? 3 * fs) with true by (unfold L in *; lia).
+      split; [reflexivity|].
+      constructor; cbn [k_D k_R k_fpos k_next k_ext k_last k_scale k_realigned s_pend s_d d_next d_ext d_mix]; auto; try lia.
+      + replace (R + (m * fs + 0)) with (R + m * fs) by lia. now rewrite Z_mod_plus_full.
+      + f_equal; unfold L; lia.
+      + rewrite zlen_map, zlen_zrange; lia.
+      + intros w Hw. destruct (Hwords w Hw) as (_ & _ & Hmx). rewrite Hmx. cbn [m_last m_scale].
+        destruct (icorr w Hw) as (Hl & Hsc). split; [|exact Hsc].
+        rewrite (znth_map _ 0) by (rewrite zlen_zrange; lia). rewrite znth_zrange by lia.
+        replace (0 + w) with w by lia.
+        apply last_cleared_nonempty. unfold fbs_of. intros E. apply (f_equal zlen) in E.
+        rewrite zlen_map, zlen_zrange in E by lia. unfold zlen in E; cbn in E; lia.
+  Qed.
+
+  (* ---------- a mix request ---------- *)
+  Lemma mix_apply_short : forall chans fracs mixes,
+    zlen fracs < zlen chans -> mix_apply nsamp chans fracs mixes = Panic.
+  Proof.
+    induction chans as [|ch cr IH]; intros fracs mixes Hl.
+    - pose proof (zlen_nonneg fracs). unfold zlen in *; cbn in *; lia.
+    - destruct fracs as [|f fr]; [reflexivity|]. cbn [mix_apply]. apply IH. rewrite !zlen_cons in Hl. lia.
+  Qed.
+
+  Definition Corr (mixes : list mixst) (klast : list Z) (kscale : list float) : Prop :=
+    zlen mixes = nchan g /\ zlen kscale = W /\
+    forall w, 0 <= w < W ->
+      m_last (znth dmix mixes (chan_of_word g w 1)) = znth 0 klast w /\
+      m_scale (znth dmix mixes (chan_of_word g w 1)) = znth 0%float kscale w.
+
+  Lemma mix_apply_ok klast : forall chans fracs mixes kscale,
+    zlen chans <= zlen fracs -> mix_chans_valid g chans = true -> Corr mixes klast kscale ->
+    exists mx, mix_apply nsamp chans fracs mixes = Ok mx /\
+               Corr mx klast (set_scales g nsamp chans fracs kscale).
+  Proof.
+    assert (Hr1 : 1 <= nrows g) by lia.
+    induction chans as [|ch cr IH]; intros fracs mixes kscale Hl Hv HC.
+    - exists mixes. split; [reflexivity|]. destruct fracs; exact HC.
+    - destruct fracs as [|f fr]; [unfold zlen in Hl; cbn in Hl; lia|].
+      cbn [mix_apply set_scales]. cbn [mix_chans_valid forallb] in Hv.
+      apply andb_true_iff in Hv as [Hv1 Hv2].
+      assert (Hch : 0 <= ch < nchan g /\ ch mod 2 = 1) by lia. destruct Hch as [Hch Hodd].
+      destruct (word_of_chan g Hc Hr1 ch Hch Hodd) as (Hw & Hcw). cbv zeta in Hw, Hcw.
+      set (w := ch / 2 mod nrows g * ncols g + ch / 2 / nrows g) in *.
+      apply IH; [rewrite !zlen_cons in Hl; lia | exact Hv2 |].
+      destruct HC as (HCl & HCs & HCw).
+      split; [rewrite zlen_upd_nth; exact HCl|]. split; [rewrite zlen_map, zlen_zrange; lia|].
+      intros w' Hw'. rewrite (znth_map _ 0) by (rewrite zlen_zrange; lia). rewrite znth_zrange by lia.
+      replace (0 + w') with w' by lia.
+      destruct (Z.eq_dec w' w) as [->|Hne].
+      + rewrite Hcw. rewrite znth_upd_nth_same by lia. cbn [m_last m_scale]. rewrite Z.eqb_refl.
+        split; [|reflexivity]. destruct (HCw w Hw) as [Hl' _]. rewrite Hcw in Hl'. exact Hl'.
+      + assert (chan_of_word g w' 1 <> ch).
+        { intros E. rewrite <- Hcw in E. apply (chan_of_word_inj g Hc Hr1) in E; auto. }
+        pose proof (chan_of_word_range g Hc Hr1 w' 1 Hw' ltac:(lia)).
+        rewrite znth_upd_nth_other by lia. destruct (w' =? w) eqn:E; [lia|]. apply HCw. exact Hw'.
+  Qed.
+
+  Lemma mix_step_glue D st k chans fracs :
+    Inv D st k ->
+    exists st' r,
+      step est true g nsamp st (OMix chans fracs) = (st', r) /\
+      ((exists kd, r = RPanic kd /\ check_step c S k (OMix chans fracs) r = Some k) \/
+       (exists k', (forall kd, r <> RPanic kd) /\ check_step c S k (OMix chans fracs) r = Some k' /\ Inv D st' k')).
+  Proof.
+    intros I. destruct I as [iD ifp iRb imod ipend inext iext iml ikl iks icorr ireal].
+    unfold step. rewrite iml. rewrite mix_valid_same.
+    unfold check_step. subst c. cbn [c_g c_nsamp].
+    destruct (mix_chans_valid g chans) eqn:Ev.
+    - destruct (zlen fracs <? zlen chans) eqn:El.
+      + rewrite mix_apply_short by lia. eexists _, _. split; [reflexivity|]. left. eexists. split; reflexivity.
+      + destruct (mix_apply_ok (k_last k) chans fracs (d_mix (s_d st)) (k_scale k) ltac:(lia) Ev)
+          as (mx & Hmx & HC).
+        { split; [exact iml|]. split; [exact iks|]. exact icorr. }
+        rewrite Hmx. eexists _, _. split; [reflexivity|]. right. eexists. split; [discriminate|].
+        cbn [Bool.eqb]. split; [reflexivity|].
+        destruct HC as (HCl & HCs & HCw).
+        constructor; cbn [k_D k_R k_fpos k_next k_ext k_last k_scale k_realigned s_pend s_d d_next d_ext d_mix]; auto.
+    - eexists _, _. split; [reflexivity|]. right.
+      destruct (zlen fracs <? zlen chans) eqn:El.
+      + eexists. split; [discriminate|]. split; [reflexivity|].
+        constructor; auto.
+      + eexists. split; [discriminate|]. cbn [Bool.eqb]. split; [reflexivity|]. constructor; auto.
+  Qed.
+
+  (* ---------- every history ---------- *)
+  Lemma glue_run : forall ops S1 st k,
+    S = S1 ++ stream_of ops -> Inv (zlen S1) st k ->
+    check_from c S k (combine ops (run est true g nsamp st ops)) = true.
+  Proof.
+    induction ops as [|o rest IH]; intros S1 st k HS I; [reflexivity|].
+    cbn [run]. destruct o as [bytes stamp|chans fracs].
+    - change (stream_of (OChunk bytes stamp :: rest)) with (bytes ++ stream_of rest) in HS.
+      destruct (chunk_step S1 st k bytes stamp (stream_of rest) I HS) as (st' & r & k' & Hs & Hnp & Hck & I').
+      rewrite Hs. destruct r as [rels blk|ok|kd]; try (exfalso; eapply Hnp; reflexivity).
+      + cbn [combine check_from]. rewrite Hck. apply (IH (S1 ++ bytes)).
+        * rewrite HS. now rewrite app_assoc.
+        * rewrite zlen_app. exact I'.
+      + cbn [combine check_from]. rewrite Hck. apply (IH (S1 ++ bytes)).
+        * rewrite HS. now rewrite app_assoc.
+        * rewrite zlen_app. exact I'.
+    - change (stream_of (OMix chans fracs :: rest)) with (stream_of rest) in HS.
+      destruct (mix_step_glue (zlen S1) st k chans fracs I) as (st' & r & Hs & [(kd & -> & Hck)|(k' & Hnp & Hck & I')]).
+      + rewrite Hs. cbn [combine check_from]. rewrite Hck. destruct rest; reflexivity.
+      + rewrite Hs. destruct r as [rels blk|ok|kd]; try (exfalso; eapply Hnp; reflexivity).
+        * cbn [combine check_from]. rewrite Hck. now apply (IH S1).
+        * cbn [combine check_from]. rewrite Hck. now apply (IH S1).
+  Qed.
+End GlueRun.
+
+(* wf_scan (the boolean check of the observable checker) implies the frame-bit pattern *)
+Lemma wf_scan_bits g : forall l i cur,
+  0 < fsize g -> wf_scan g i cur l = true ->
+  forall t, 0 <= t < zlen l -> (i + t) mod 4 = 2 ->
+    bit0 (znth 0 l t) = (((i + t) mod fsize g) / 4 <? ncols g).
+Proof.
+  induction l as [|x r IH]; intros i cur Hfs H t Ht Hmod.
+  - unfold zlen in Ht; cbn in Ht; lia.
+  - cbn [wf_scan] in H. apply andb_true_iff in H as [Hx H].
+    destruct (Z.eq_dec t 0) as [->|Ht0].
+    + replace (i + 0) with i in * by lia. rewrite znth_cons_0. rewrite Hmod in H. cbn [Z.eqb] in H.
+      apply andb_true_iff in H as [Hb _]. now apply Bool.eqb_prop in Hb.
+    + rewrite znth_cons_S by lia. rewrite zlen_cons in Ht.
+      replace (i + t) with (i + 1 + (t - 1)) in * by lia.
+      destruct (i mod 4 =? 2) eqn:E4.
+      * apply andb_true_iff in H as [_ H].
+        destruct ((i mod fsize g) / 4 mod ncols g =? 0).
+        -- eapply IH; eauto; lia.
+        -- destruct cur as [f|].
+           ++ apply andb_true_iff in H as [_ H]. eapply IH; eauto; lia.
+           ++ eapply IH; eauto; lia.
+      * eapply IH; eauto; lia.
+Qed.
+
+Lemma mod4W k W : 0 < W -> 0 <= k -> ((4 * k + 2) mod (4 * W)) / 4 = k mod W.
+Proof.
+  intros HW Hk. pose proof (Z.div_mod k W ltac:(lia)). pose proof (Z.mod_pos_bound k W ltac:(lia)).
+  assert (E : (4 * k + 2) mod (4 * W) = 4 * (k mod W) + 2).
+  { symmetry. apply Z.mod_unique with (q := k / W); lia. }
+  rewrite E. symmetry. apply Z.div_unique with (r := 2); lia.
+Qed.
+
+Lemma run_prefix est g nsamp : forall ops st,
+  exists ops1 ops2, ops = ops1 ++ ops2 /\
+    map fst (combine ops (run est true g nsamp st ops)) = ops1 /\
+    combine ops (run est true g nsamp st ops) = combine ops1 (run est true g nsamp st ops1).
+Proof.
+  induction ops as [|o rest IH]; intros st.
+  - exists [], []. repeat split.
+  - cbn [run]. destruct (step est true g nsamp st o) as [st' r] eqn:Es.
+    destruct r as [rels blk|ok|kd].
+    + destruct (IH st') as (o1 & o2 & E1 & E2 & E3). exists (o :: o1), o2. cbn [combine map fst app run]. rewrite Es.
+      repeat split; [now rewrite E1 | now rewrite E2 | now rewrite <- E3].
+    + destruct (IH st') as (o1 & o2 & E1 & E2 & E3). exists (o :: o1), o2. cbn [combine map fst app run]. rewrite Es.
+      repeat split; [now rewrite E1 | now rewrite E2 | now rewrite <- E3].
+    + exists [o], rest. cbn [combine map fst app run]. rewrite Es.
+      assert (E : combine rest (@nil opres) = []) by (destruct rest; reflexivity).
+      repeat split; cbn [combine]; rewrite E; reflexivity.
+Qed.
+
+Lemma init_inv (est : Z -> Z -> Z) g S : 1 <= ncols g -> 2 <= nrows g ->
+  Inv g S 0 (init_state g) (init_cst g).
+Proof.
+  intros Hc Hr. destruct (Wpos est g Hc Hr) as (HW & Hfs & Hn).
+  assert (Hr1 : 1 <= nrows g) by lia.
+  constructor; cbn [init_state init_cst init_dstate k_D k_R k_fpos k_next k_ext k_last k_scale k_realigned
+                    s_pend s_d d_next d_ext d_mix]; try reflexivity; try lia.
+  - rewrite zlen_map, zlen_zrange; lia.
+  - rewrite zlen_map, zlen_zrange; lia.
+  - rewrite zlen_map, zlen_zrange; lia.
+  - intros w Hw. pose proof (chan_of_word_range g Hc Hr1 w 1 Hw ltac:(lia)).
+    rewrite (znth_map _ 0) by (rewrite zlen_zrange; lia).
+    rewrite (znth_map _ 0) by (rewrite zlen_zrange; lia).
+    rewrite (znth_map _ 0) by (rewrite zlen_zrange; lia). split; reflexivity.
+Qed.
+
+Lemma model_passes_check_proof :
+  forall est g nsamp ops,
+    C04_check {| c_g := g; c_nsamp := nsamp; c_gap := None |}
+              (combine ops (run est true g nsamp (init_state g) ops)) = true.
+Proof.
+  intros est g nsamp ops. unfold C04_check.
+  destruct (run_prefix est g nsamp ops (init_state g)) as (ops1 & ops2 & _ & Hfst & Hh).
+  rewrite Hfst, Hh.
+  destruct (stream_wf _ (stream_of ops1) && stamps_increasing ops1) eqn:Ewf; [|reflexivity].
+  apply andb_true_iff in Ewf as [Ewf _]. unfold stream_wf in Ewf. cbn [c_g c_nsamp c_gap] in Ewf.
+  apply andb_true_iff in Ewf as [Eg Escan]. apply andb_true_iff in Eg as [Eg _].
+  unfold geom_ok in Eg. assert (Hc : 1 <= ncols g) by lia. assert (Hr : 2 <= nrows g) by lia.
+  set (S := stream_of ops1) in *.
+  assert (Hfs : 0 < fsize g /\ fsize g = 4 * nwords g /\ 0 < nwords g) by (unfold fsize, nwords; nia).
+  assert (Hbits : frame_bits_wf g S).
+  { intros k Hk Hl.
+    pose proof (wf_scan_bits g S 0 None ltac:(lia) Escan (4 * k + 2) ltac:(lia)) as Hb.
+    replace (0 + (4 * k + 2)) with (4 * k + 2) in Hb by lia.
+    rewrite Hb.
+    - destruct Hfs as (_ & -> & HW). now rewrite mod4W by lia.
+    - replace (4 * k + 2) with (2 + k * 4) by lia. now rewrite Z_mod_plus_full. }
+  cbn [c_g].
+  apply (glue_run est g nsamp Hc Hr S Hbits ops1 [] (init_state g) (init_cst g)).
+  - reflexivity.
+  - apply (init_inv est); assumption.
+Qed.
